@@ -11,7 +11,7 @@ def run(rep, tier, seed):
     if not pr['ok']:
         rep.violation({'kind': 'proof-broken', 'log': pr['log'][-3000:], 'forbidden': pr['forbidden']}, suffix='no-failing-input-found')
     nh, nops, mp = (8, 30, 80) if tier == 'quick' else (200, 60, 100000)
-    k3check.run_crash(rep, 'C05', tier, seed, ['written', 'min', 'torn', 'dirahead'], nh, nops, mp, OPTS, known_sig=known_sig)
+    k3check.run_crash(rep, 'C05', tier, seed, ['written', 'min', 'torn', 'dirahead'], nh, nops, mp, OPTS, known_sig=known_sig, nested=(25 if tier == 'quick' else 6))
     # clean (crash-free) reopen cycles over long log/MANIFEST-reuse histories must succeed as well
     import k2check, histgen
     k2check.run_k2(rep, 'C05', tier, seed, 'c01', 2 if tier == 'quick' else 40, 60, fixed={'reuse_logs': 1}, extra_histories=histgen.corpus_histories()[-3:])
